@@ -84,6 +84,17 @@ func c17Make(r *fw.Rand, tokBase int) *c17Doc {
 		p.Living = true
 		d.living[p.Idx] = true
 	}
+	// long names (components may cut them, or move them into a tool tip) and
+	// places below facts that are not events (occupation, education, a custom tag)
+	for _, p := range g.People {
+		if r.Chance(1, 3) {
+			p.Given = p.Given + " " + next() + " " + next() + " " + next()
+		}
+		if r.Chance(1, 2) {
+			tag := []string{"OCCU", "EDUC", "NATI", "RELI", "TITL", "PROP", "_WORK"}[r.Intn(7)]
+			p.Extra = append(p.Extra, &gen.Spec{Tag: tag, Value: "fact", Kids: []*gen.Spec{{Tag: "PLAC", Value: next() + ", " + next()}}})
+		}
+	}
 	// family events happen somewhere too: the place pages then list events
 	// that belong to a couple, not to one individual
 	for _, f := range g.Families {
@@ -144,18 +155,37 @@ func (d *c17Doc) redraw(r *fw.Rand, tokBase int) string {
 		names      []string
 		sub        []*gen.Spec
 		evs        []gen.Ev
+		extra      []*gen.Spec
 	}
 	keep := map[int]saved{}
 	for _, p := range d.g.People {
 		if !d.living[p.Idx] {
 			continue
 		}
-		s := saved{p.Given, p.Surname, p.Names, p.NameSub, nil}
+		s := saved{p.Given, p.Surname, p.Names, p.NameSub, nil, p.Extra}
+		var ex []*gen.Spec
+		for _, x := range p.Extra {
+			cx := &gen.Spec{Tag: x.Tag, Value: x.Value, Pointer: x.Pointer}
+			for _, k := range x.Kids {
+				ck := *k
+				if ck.Tag == "PLAC" {
+					ck.Value = next() + ", " + next()
+				}
+				cx.Kids = append(cx.Kids, &ck)
+			}
+			ex = append(ex, cx)
+		}
+		p.Extra = ex
 		for _, e := range p.Events {
 			s.evs = append(s.evs, *e)
 		}
 		keep[p.Idx] = s
-		p.Given, p.Surname = next(), next()
+		if n := len(strings.Fields(p.Given)); n > 1 {
+			p.Given = next() + " " + next() + " " + next() + " " + next()
+			p.Surname = next()
+		} else {
+			p.Given, p.Surname = next(), next()
+		}
 		var ns []string
 		for range p.Names {
 			ns = append(ns, next()+" /"+next()+"/")
@@ -181,7 +211,7 @@ func (d *c17Doc) redraw(r *fw.Rand, tokBase int) string {
 	text := d.g.Text()
 	for _, p := range d.g.People {
 		if s, ok := keep[p.Idx]; ok {
-			p.Given, p.Surname, p.Names, p.NameSub = s.given, s.sur, s.names, s.sub
+			p.Given, p.Surname, p.Names, p.NameSub, p.Extra = s.given, s.sur, s.names, s.sub, s.extra
 			for i := range p.Events {
 				*p.Events[i] = s.evs[i]
 			}
